@@ -612,6 +612,33 @@ pub fn call_genu64<O: Gen<u64> + ?Sized>(rv: &mut Recv<O>, mi: usize, a: &mut A)
     }
 }
 
+pub const ATTRS: [Meth; 3] = [m("at_first"), m("at_last"), m("at_c")];
+pub fn call_attrs<O: Attrs + ?Sized>(rv: &mut Recv<O>, mi: usize, a: &mut A) -> Ret {
+    match mi {
+        0 => Ret::U(rv.r().at_first(a.u(0))),
+        1 => Ret::U(need_mut!(rv).at_last(a.u(0))),
+        2 => Ret::U(rv.r().at_c() as u64),
+        _ => Ret::NoSuchMethod,
+    }
+}
+pub const LIFE: [Meth; 3] = [m("l_get"), m("l_eq"), m("l_set")];
+pub fn call_life<'x, O: Life<'x, u64> + ?Sized>(rv: &mut Recv<O>, mi: usize, a: &mut A) -> Ret {
+    match mi {
+        0 => {
+            let r = rv.r().l_get();
+            a.sent.push((r as *const u64 as usize, 1));
+            Ret::U(*r)
+        }
+        1 => {
+            let v = a.u(0);
+            a.sent.push((&v as *const u64 as usize, 1));
+            Ret::B(rv.r().l_eq(&v))
+        }
+        2 => Ret::U(need_mut!(rv).l_set(a.u(0))),
+        _ => Ret::NoSuchMethod,
+    }
+}
+
 pub const FMTDEBUG: [Meth; 1] = [Meth { name: "Debug::fmt", logged_as: "fmt_debug" }];
 pub fn call_debug<O: core::fmt::Debug + ?Sized>(rv: &mut Recv<O>, mi: usize, _a: &mut A) -> Ret {
     use std::fmt::Write;
